@@ -194,10 +194,26 @@ fn populate(src: &MemSource) {
         t.put(&id, "la", b"ok:v0".to_vec(), Variant::Buffer);
         t.put(&id, "ls", b"ok:s0".to_vec(), Variant::Buffer);
         // N0 k_n reads its own leaf file raw (so that the same notification concerns it) and a static leaf
-        t.put(&id, "n0", world::recipe_bytes(&[ROp::F { id: id.clone(), ext: "la".into() }, ROp::O { kind: Kind::LeafS, id: id.clone(), tolerant: true }]), Variant::Buffer);
+        // ... and loads (caches) the reloadable leaf of the same number
+        t.put(
+            &id,
+            "n0",
+            world::recipe_bytes(&[ROp::F { id: id.clone(), ext: "la".into() }, ROp::O { kind: Kind::LeafS, id: id.clone(), tolerant: true }, ROp::L { kind: Kind::Leaf, id: id.clone(), tolerant: true }]),
+            Variant::Buffer,
+        );
         t.put(&id, "ns", world::recipe_bytes(&[ROp::F { id: id.clone(), ext: "la".into() }, ROp::O { kind: Kind::Leaf, id: id.clone(), tolerant: true }]), Variant::Buffer);
     }
     t.put(world::SENTINEL, "la", b"ok:S0".to_vec(), Variant::Buffer);
+}
+
+/// The compound N0 k_n loads (and thereby caches) the reloadable leaf k_n: when N0's loader has run, the leaf may
+/// be in the cache without having been asked for by the history.
+fn adopt_leaf_loaded_by_n0(model: &mut Model, any: AnyCache, n: u8) {
+    if !model.entries.contains_key(&(K::Leaf, n)) {
+        if let Some(v) = typed_value(any, K::Leaf, &id_of(K::Leaf, n)) {
+            model.entries.insert((K::Leaf, n), Entry { value: v, frozen: !model.has_reloader, got: None });
+        }
+    }
 }
 
 struct Model {
@@ -228,10 +244,16 @@ macro_rules! drive {
                         let got = typed_meta($cache.as_any_cache(), *k, &id).and_then(|m| m.2);
                         $model.entries.insert((*k, *n), Entry { value: v, frozen: !(reloadable_kind(*k) && $model.has_reloader), got });
                     }
+                    if *k == K::N0 && !was {
+                        adopt_leaf_loaded_by_n0(&mut $model, $cache.as_any_cache(), *n);
+                    }
                 }
                 Op::LoadOwned(k, n) => {
                     typed_load_owned($cache.as_any_cache(), *k, &id_of(*k, *n));
                     known_keys.insert(*n);
+                    if *k == K::N0 {
+                        adopt_leaf_loaded_by_n0(&mut $model, $cache.as_any_cache(), *n);
+                    }
                 }
                 Op::GetOrInsert(k, n, v) => {
                     let id = id_of(*k, *n);
@@ -315,6 +337,22 @@ macro_rules! drive {
                             hot_reload_of(&$cache);
                             std::thread::yield_now();
                         }
+                    }
+                    // a leaf nobody asked for is in the cache only if a cached, reloadable N0 of the same number was
+                    // reloaded (its loader loads the leaf); the reloader never runs the loader of a key that is not
+                    // cached any more, or of a value stored with get_or_insert
+                    for n in 0..NKEYS {
+                        if !$model.entries.contains_key(&(K::Leaf, n)) && typed_value($cache.as_any_cache(), K::Leaf, &id_of(K::Leaf, n)).is_some() {
+                            let by_reload = $model.has_reloader && matches!($model.entries.get(&(K::N0, n)), Some(e) if !e.frozen);
+                            if !by_reload {
+                                $out.fail("ghost-entry", format!("step {step}: (Leaf, {:?}) is in the cache although the history never loaded it since it was removed and no cached reloadable compound loads it: the loader of a key that is not cached (or not reloadable) any more was run (N0 of that number: {})", id_of(K::Leaf, n), match $model.entries.get(&(K::N0, n)) { Some(e) if e.frozen => "stored with get_or_insert", Some(_) => "cached", None => "not cached" }));
+                                break;
+                            }
+                            adopt_leaf_loaded_by_n0(&mut $model, $cache.as_any_cache(), n);
+                        }
+                    }
+                    if $out.failed() {
+                        break;
                     }
                     // every frozen entry is exactly as it was created
                     for ((k, n), e) in $model.entries.iter_mut() {
@@ -424,8 +462,8 @@ impl Prop for C10 {
     fn rule(&self) -> String {
         "cases = (cache constructor: with_source on a hot-reloadable source (reloader) | without_hot_reloading | with_source on a source without hot-reloading support | with_source on a source whose configure_hot_reloading fails after having stored the EventSender | LocalAssetCache; \
          history over 3 ids x kinds {reloadable asset, reloadable compound, opt-out asset, opt-out compound, Storable, Arc of an opt-out asset, Arc of a reloadable asset, OnceInitCell<U, T> and OnceInitCell<Option<U>, T> around an opt-out asset} of load / load_owned / get_or_insert / remove / take / clear, edits of the files behind the ids (all notified), \
-         a load racing a get_or_insert, and barriers). At every barrier every frozen entry (created by get_or_insert, or of an opt-out type, or in a cache without reloader) must hold exactly the value it was created with, \
-         report ReloadId::NEVER and no reload, and Handle::get() must return the same address and content. \
+         a load racing a get_or_insert, and barriers; the reloadable compound of number n loads - and thereby caches - the reloadable leaf of number n). At every barrier every frozen entry (created by get_or_insert, or of an opt-out type, or in a cache without reloader) must hold exactly the value it was created with, \
+         report ReloadId::NEVER and no reload, and Handle::get() must return the same address and content; a leaf that the history did not load is in the cache only if a cached reloadable compound that loads it was reloaded. \
          non-trivial = a frozen entry created by get_or_insert on a key the reloader already knew (loaded / load_owned before, then removed or cleared) with a later notified edit; distinct = different canonical JSON"
             .into()
     }
